@@ -2,7 +2,7 @@
 correspondence: optimize(law(p)) on the implementation vs the generated optimizer, structurally, for every atom class x
                 parameter grid x 28 laws.
 search:         optimize(law(p)) == expected on the implementation (expected: always_false_p, always_true_p, optimize(p), optimize(~p))."""
-from common import enc, gen, main, rng_of
+from common import call, enc, gen, main, rng_of
 import optcommon as oc
 
 from predicate import optimize
@@ -72,7 +72,46 @@ def search(payload):
                     known_hits.append({"id": 9, "p": repr(lhs)})
                 else:
                     fails.append({"p": repr(p), "law": name, "got": repr(r), "expected": repr(e)})
-    return {"evaluations": n, "failures": fails[:5], "known_hits": known_hits, "samples": [{"p": "ge_p(1)", "law": "p ^ true", "expected": "optimize(~p)"}]}
+    # HISTORY (history.py): the laws for a few atoms again and again in this process, between other optimize() calls (three-operand
+    # conjunctions, calls that raise), and for lazy_p references written twice, before and after the expression has been evaluated
+    import copy
+    import history
+    from predicate.standard_predicates import all_p, any_p, ge_p, gt_p, le_p, is_int_p, is_none_p, is_not_none_p, is_str_p, eq_p, ne_p
+    hat = [ge_p(2), le_p(2), is_int_p, is_none_p, eq_p(3), ne_p(0), in_p(1, 2), not_in_p(3), is_str_p, NamedPredicate(name="v"), has_key_p(1), PP.is_empty_p]
+
+    def law_call(a, name):
+        def th():
+            pa = copy.deepcopy(a)
+            lhs, code = next((l_, c_) for nm_, l_, c_ in laws(pa) if nm_ == name)
+            r, e = optimize(lhs), expected(code, copy.deepcopy(a))
+            return None if r == e else {"p": repr(a), "law": name, "got": repr(r), "expected": repr(e)}
+        return th
+    names = [nm_ for nm_, _l, _c in laws(hat[0])]
+    calls = [(f"optimize({nm_}) with p = {a!r}", law_call(a, nm_)) for a in hat for nm_ in names]
+    primers = [is_int_p & ge_p(0) & is_not_none_p, is_int_p & is_not_none_p & gt_p(2), (ge_p(0) | is_none_p) | is_str_p, ge_p(0) & le_p(9) & ne_p(5), ~is_int_p & ~is_none_p & le_p(2)]
+    for t in primers:
+        calls.append((f"optimize({t!r})  (no verdict: an earlier call of the process)", lambda t=t: (optimize(copy.deepcopy(t)), None)[1]))
+
+    def lazy_law():
+        tree = is_int_p | is_str_p        # noqa: F841  (the name the references resolve to)
+        bad = []
+        for label, mk, want in (("lazy_p('tree') | ~lazy_p('tree')", lambda: lazy_p("tree") | ~lazy_p("tree"), T), ("lazy_p('tree') & ~lazy_p('tree')", lambda: lazy_p("tree") & ~lazy_p("tree"), F),
+                                ("lazy_p('tree') ^ lazy_p('tree')", lambda: lazy_p("tree") ^ lazy_p("tree"), F)):
+            e = mk()
+            before = optimize(e)
+            call(e, 1)                       # the expression is evaluated once (its references resolve and remember their frame)
+            after = optimize(e)
+            if not (before == want) or not (after == want):
+                bad.append({"p": label, "law": "two references to one name", "got": f"before evaluation {before!r}, after evaluation {after!r}", "expected": repr(want)})
+        return bad[0] if bad else None
+    calls.append(("the laws for lazy_p('tree') written twice, before and after the expression was evaluated once", lazy_law))
+    poison = [("optimize(ge_p(1) & le_p('a'))  # TypeError", lambda: optimize(ge_p(1) & le_p("a")))] * 80 + \
+             [("optimize(all_p(ge_p(1) & le_p('a')))  # TypeError", lambda: optimize(all_p(ge_p(1) & le_p("a"))))] * 80 + \
+             [("optimize(~any_p(all_p(is_int_p & (ge_p(1) & le_p('a')))))  # TypeError", lambda: optimize(~any_p(all_p(is_int_p & (ge_p(1) & le_p("a"))))))] * 40
+    hn, hfails = history.run(calls, poison=poison, passes=3, seed=int(payload.get("seed", 0)), vetted=True)
+    n += hn
+    fails = fails + hfails
+    return {"evaluations": n, "failures": fails[:5], "known_hits": known_hits, "history_calls": hn, "samples": [{"p": "ge_p(1)", "law": "p ^ true", "expected": "optimize(~p)"}]}
 
 
 def replay(payload):
